@@ -47,21 +47,21 @@ PLANS = {
     "C05": hist(
         "histories interleaving next_id with explicit adds, collections, clones, merges and scripts; trace monitor with "
         "the per-lineage returned-set; non-trivial = >=3 next_id() calls with an explicit add and a collection in between",
-        (2500, 10), (40000, 120)),
+        (6000, 10), (80000, 120)),
     "C06": hist(
         "churn histories (create-put-read cycles over a rotating id set, 0..=13 long-lived groups, non-FIFO deaths) "
         "compared with the reference model after every call + drain + slot-fill probe; non-trivial = >=15 collections "
         "in the history (one full wrap of the 14 group slots)",
         (200, 15), (1500, 200), floor=30),
     "C15": hist(
-        "byte strings of length 0..=12 (18 thorough) x 6 contents x up to 5 representations (from_vec, Hex::Vector, Hex::Bytes with "
+        "byte strings of length 0..=16 (24 thorough) x 6 contents x up to 5 representations (from_vec, Hex::Vector, Hex::Bytes with "
         "0x00 / 0xFF / random padding); every accessor, every index in 0..=len+2 and usize::MAX(-1), all six range kinds over every "
         "(start,end) pair, equality across representations, from_str(print), i64/f64 conversions; oracle = the same operation on the "
         "byte slice incl. panic/no-panic; non-trivial = distinct (string, representation, accessor, index) tuples at or across a boundary "
         "(len in {0,7,8,9}, index in {len-1,len,len+1})",
         (1, 60), (1, 300), floor=1000),
     "C16": hist(
-        "all pairs of lengths 0..=12 (20 thorough) x contents x all representations of both operands; oracle = Vec concatenation, "
+        "all pairs of lengths 0..=16 (24 thorough) x contents x all representations of both operands; oracle = Vec concatenation, "
         "operands unchanged; non-trivial = distinct pairs whose left operand or total length lies at the 8-byte boundary",
         (1, 60), (1, 300), floor=1000),
     "C17": hist(
@@ -94,18 +94,18 @@ PLANS = {
         "slices from present start vertices under 7 predicates (accept-all, reject-all, 30/50/80 % tables, label-based, not-into-one-vertex); "
         "oracle = closure computed from the source's kids(); predicate-call bound as termination check; non-trivial = slice over a cyclic "
         "reachable part with a rejected edge whose target is kept through another edge",
-        (3000, 12), (50000, 150), mode="sink"),
+        (4500, 12), (50000, 150), mode="sink"),
     "C18": hist(
         "graphs reached by mixed/cross/re-add histories after collections; to_xml() parsed with sxd-document and to_dot() with a line "
         "grammar, compared with keys()/kids()/model data every ~8 calls; canonicity by a twin build of the same abstract graph (other "
         "insertion orders, other N and capacity, detours through collected ids, overwritten data) compared byte for byte; non-trivial = "
         "graph with a collected id, a never-added id and a vertex with >=2 edges and data",
-        (3000, 12), (50000, 150)),
+        (4500, 12), (50000, 150)),
     "C20": hist(
         "graphs reached by mixed/cross/full histories; inspect() from present start vertices parsed back by indentation and compared "
         "edge-for-edge with kids() of every reachable vertex (exactly once), line-count bound; Debug/Display entries and v_print() parsed "
         "and compared with keys()/kids()/model data; non-trivial = start vertex from which a cycle and a vertex of in-degree >= 2 are reachable",
-        (3000, 12), (50000, 150), mode="sink"),
+        (4500, 12), (50000, 150), mode="sink"),
     "C11": hist(
         "small-scope sweep: every ordered left tree <= 3 vertices x every left vertex x every ordered right tree <= 4 (5 thorough) vertices x "
         "all placements of {no, inline, heap, zero-length, already-read} data; plus random trees up to 9 (12) vertices on arbitrary ids with a GC "
@@ -119,20 +119,20 @@ PLANS = {
         "tree and left vertex; oracle = reachability in the right graph computed from its build ops; Ok must imply completeness, Err must "
         "name (as nu<id>) every missed vertex, control cases without extras must return Ok; non-trivial = a detached sub-tree of >=2 vertices "
         "or right below the root",
-        (20000, 8), (400000, 100)),
+        (80000, 8), (1200000, 100)),
     "C14": hist(
         "ASTs of 1..40 ADD/BIND/PUT commands over literal ids and up to 6 variables on top of a random base history, rendered with random "
         "legal formatting (spaces, tabs, newlines, nu-prefixes, comments containing ; ) #, hex in mixed case with/without dashes and inner "
         "whitespace); twin = the same graph driven by direct calls; digests + snapshot compared, then a 20-call continuation and a drain on both; "
         "one third of the programs carry one of 12 single-fault corruptions: Err required, graph == preceding commands applied; non-trivial = "
         "a variable used in >=2 commands, a comment and a datum > 8 bytes",
-        (5000, 10), (80000, 120), floor=30),
+        (12000, 10), (160000, 120), floor=30),
     "C19": hist(
         "mixed histories (merge and slice included) generated for (N0,cap0), replayed in the same process, in a second process (fresh "
         "RandomState, other ASLR) and under 4 (8 thorough) other configurations N>=N0, cap>=cap0; the prefix hashes of the full observation "
         "trace (every return value incl. kids() order and allocated ids, keys/kids/kid/v_print after every call, all printers every 16 calls) "
         "must agree; non-trivial = history with a merge creating >=2 vertices or a slice of >=3 vertices, replayed under >=3 other configurations",
-        (450, 14), (8000, 150), floor=20),
+        (650, 14), (8000, 150), floor=20),
     "C07": {
         "common": {
             "level": "exploration",
